@@ -116,7 +116,7 @@ func (m *c05Mon) after(h *H, s *step) {
 
 var c05Profile = opProfile{
 	browsers: 3, wNav: 5, wLogin: 3, wAuthorize: 3, wCallback: 3, wLogout: 2, wAdvance: 2, wIdP: 0, wAttack: 6,
-	attacks:    []string{"chosen-id", "chosen-id", "unknown-id", "stale-id", "pending-id-app", "replay-callback", "forged-callback", "garbage-cookie"},
+	attacks:    []string{"chosen-id", "chosen-id", "unknown-id", "stale-id", "pending-id-app", "replay-callback", "forged-callback", "garbage-cookie", "near-miss-cookie-name"},
 	behaviours: c01Behaviours,
 }
 
